@@ -154,6 +154,12 @@ class Gen:
         else:
             r0 = row()
             rows = [list(r0) for _ in vis]
+        if len(vis) >= 3 and self.r.chance(0.25):
+            # the rows of a table may be written in any order of vi
+            perm = list(range(len(vis)))
+            self.r.shuffle(perm)
+            vis = [vis[j] for j in perm]
+            rows = [rows[j] for j in perm]
         return {"vi": vis, "io": ios, key: rows}
 
     def maybe_table(self, key, const, lo, hi, vnom, imax, mono=None):
@@ -276,6 +282,12 @@ class Gen:
             p["rs"] = self.neg(self.r.pick([0.01, 0.05, 0.1, 0.2, 0.5]))
         return self.form(mk("Source", name, p, self.limits_for("Source")))
 
+    def flagform(self, op):
+        """Boolean arguments spelled as numpy bools / 0-1 (argument-form class)."""
+        if self.cfg.get("arg_forms") and self.r.chance(0.6):
+            op["flagform"] = self.r.pick(["np", "int"])
+        return op
+
     def form(self, spec):
         if self.cfg.get("arg_forms") and self.r.chance(0.6):
             spec["form"] = self.r.pick(["int", "np"])
@@ -382,6 +394,8 @@ class Gen:
     def mux_rs(self, spec, ninputs):
         if self.r.chance(0.5):
             spec["p"]["rs"] = [self.neg(self.r.pick([0.01, 0.05, 0.1, 0.2, 0.35])) for _ in range(ninputs)]
+        if spec.get("form") == "int" and self.r.chance(0.7):
+            spec["p"]["rs"] = [float(self.r.pick([0, 1, 1, 2])) for _ in range(ninputs)]  # built as a list of Python ints
         return spec
 
     # ------------------------------------------------------------------
@@ -543,6 +557,46 @@ class Gen:
         ops.append({"op": "del_comp", "name": d, "del_childs": False})
         return ops
 
+    def light_load(self, m, vnom):
+        """A load drawing 10..100 uA: hundreds of them fit on any supply."""
+        k = self.r.pick(["ILoad", "PLoad", "RLoad"])
+        name = self.fresh(k[0] + "L", m)
+        a = max(abs(vnom), 0.5)
+        if k == "ILoad":
+            p = {"ii": self.eng(-5, -5)}
+        elif k == "PLoad":
+            p = {"pwr": self.eng(-5, -5) * a}
+        else:
+            p = {"rs": a / self.eng(-5, -5)}
+        return mk(k, name, p, None)
+
+    def op_bulk_wide(self, m, n):
+        """n light loads under the first source (and under one series element
+        when there is one): later components get node numbers above 256."""
+        par = [m.sources()[0]] + [x for x in self.nonload(m) if m.kind(x) not in ("Source", "PMux")][:1]
+        ops = []
+        for i in range(n):
+            p = par[i % len(par)]
+            ops.append({"op": "add_comp", "parent": p, "comp": self.light_load(m, self.vnom(m, p)), "group": "", "rail": ""})
+        return {"op": "bulk", "ops": ops, "what": "wide"}
+
+    def op_bulk_chain(self, m, depth):
+        """A daisy chain `depth` series elements long with a light load tapped
+        every few links and one at the end."""
+        src = m.sources()[0]
+        vn = self.vnom(m, src)
+        ops, prev = [], src
+        for i in range(depth):
+            k = "RLoss" if (i % 7 or "VLoss" not in self.cfg["kinds"]) else "VLoss"
+            name = self.fresh("CH", m)
+            spec = mk(k, name, {"rs": 0.002} if k == "RLoss" else {"vdrop": 0.001}, None)
+            ops.append({"op": "add_comp", "parent": prev, "comp": spec, "group": "", "rail": ""})
+            if i % 9 == 4:
+                ops.append({"op": "add_comp", "parent": name, "comp": self.light_load(m, vn), "group": "", "rail": ""})
+            prev = name
+        ops.append({"op": "add_comp", "parent": prev, "comp": mk("ILoad", self.fresh("IL", m), {"ii": self.eng(-3, -3)}, None), "group": "", "rail": ""})
+        return {"op": "bulk", "ops": ops, "what": "chain%d" % depth}
+
     def op_move(self, m):
         """Move a leaf under another parent: delete it and add it again (the
         component count is the same before and after)."""
@@ -605,10 +659,17 @@ class Gen:
             if self.cfg.get("collapse_inputs"):
                 return {"op": "del_comp", "name": n, "del_childs": False, "collapse": True}
             dc = True
-        return {"op": "del_comp", "name": n, "del_childs": dc}
+        return self.flagform({"op": "del_comp", "name": n, "del_childs": dc})
 
     # ---- rejected calls: every rejection class constructible at the state
     def reject_classes(self, m):
+        out = self._reject_classes(m)
+        for _, op in out:
+            if op["op"] == "del_comp":
+                self.flagform(op)
+        return out
+
+    def _reject_classes(self, m):
         """All rejection-class instances constructible at the current state."""
         out = []
         names = m.order
@@ -657,7 +718,7 @@ class Gen:
             out.append(("dup_parent_by_rail_alias", {"op": "add_comp", "parent": [rn, m.rails[rn]] + ([self.r.pick(more)] if more else []), "comp": c("PMux"), "group": "", "rail": ""}))
         out.append(("dup_parents", {"op": "add_comp", "parent": [anyp, anyp], "comp": c("PMux"), "group": "", "rail": ""}))
         if m.mux() is not None:
-            out.append(("second_mux", {"op": "add_comp", "parent": [anyp], "comp": c("PMux"), "group": "", "rail": ""}))
+            out.append(("second_mux", {"op": "add_comp", "parent": [anyp] if self.r.chance(0.5) else anyp, "comp": c("PMux"), "group": "", "rail": ""}))
             out.append(("mux_to_other", {"op": "change_comp", "name": m.mux(), "comp": c("PSwitch"), "group": "", "rail": ""}))
             other = [n for n in nonl if m.kind(n) not in ("PMux", "Source")]
             if other:
@@ -719,6 +780,11 @@ class Gen:
             return {"op": "set_sys_phases", "phases": {}}
         n = self.r.randint(2, 4)
         names = self.r.sample(PHASE_NAMES, n)
+        if self.r.chance(0.12):
+            # a phase may carry the name of a component (separate name spaces)
+            cn = self.r.pick(m.order)
+            if cn != "N/A" and cn not in names:
+                names[self.r.randint(0, n - 1)] = cn
         return {"op": "set_sys_phases", "phases": {p: self.r.pick([0.1, 1.0, 5.5, 30.0, 120.0, 3600.0]) for p in names}}
 
     def op_comp_phases(self, m, name=None, clear=False):
@@ -886,6 +952,8 @@ class Gen:
             return None
         kind = self.r.wpick([("linear", 3), ("stepped", 2), ("imp", 2), ("cc", 2 if phs else 0), ("early", 0.6)])
         steps = self.r.randint(3, 40)
+        if self.cfg.get("chain"):
+            steps = self.r.randint(2, 5)  # every step is a few hundred sweeps here
         model = {"kind": kind, "v0": round(v * self.r.pick([1.0, 1.1, 0.95]), 4), "rs0": self.r.pick([0.0, 0.05, 0.1, 0.2])}
         model["v1"] = round(model["v0"] * self.r.pick([0.6, 0.75, 0.85]), 4)
         if kind == "imp" or (kind in ("stepped", "cc") and self.r.chance(0.5)):
@@ -906,6 +974,16 @@ class Gen:
         else:
             model["cap"] = self.r.pick([0.05, 0.5, 2.2, 150.0])
             model["slope"] = round(1000.0 / steps, 4)
+        if kind in ("linear", "stepped") and self.r.chance(0.08):
+            # a fitted model that dips below 0 V while charge is left; the run is
+            # asked to go on "until the voltage collapses" (cutoff 0)
+            model["v1"] = round(-0.3 * model["v0"], 4)
+            model["slope"] = max(model["slope"], 1.0)
+            cutoff = 0.0
+        elif self.r.chance(0.05):
+            # a battery on a negative rail with a cut-off it is already below
+            model["v0"], model["v1"] = -abs(model["v0"]), -abs(model["v1"])
+            cutoff = self.r.pick([0.0, abs(model["v1"]), round(0.5 * model["v0"], 4)])
         if kind == "early":
             which = self.r.pick(["empty", "below", "equal"])
             if which == "empty":
@@ -947,6 +1025,14 @@ class Gen:
             attr = self.r.pick(["fillcolor", "shape", "penwidth", "fontcolor"])
             val = {"fillcolor": self.r.pick(colors), "shape": self.r.pick(["ellipse", "box", "hexagon"]), "penwidth": self.r.pick(["0.5", "3"]), "fontcolor": self.r.pick(["red", "blue"])}[attr]
             conf["node"].setdefault(key, {})[attr] = val
+        if self.r.chance(0.25):
+            # the same attribute at name level and at kind level, the name entry
+            # written first (precedence is by level, not by position)
+            n = self.r.pick(m.order)
+            conf["node"].pop(n, None)
+            conf["node"].pop(m.kind(n), None)
+            conf["node"][n] = {"fillcolor": "gold", "shape": "hexagon"}
+            conf["node"][m.kind(n)] = {"fillcolor": "coral", "shape": "ellipse"}
         if self.r.chance(0.3):
             conf["node"]["__default_override__"] = {"shape": self.r.pick(["oval", "box3d"])}
         if self.r.chance(0.2):
